@@ -149,7 +149,12 @@ func runC16(ctx *core.Ctx, idx int) *core.Result {
 	r := ctx.Rand("c16", idx)
 	g := gen.NewG(r)
 	n := 3 + r.Intn(5)
-	patch := "# bump\n@@\nvar x expression\n@@\n-bump(x)\n+bump(x + 1)\n\n@@\n@@\n-badType\n+1 + 2\n"
+	first := "@@\nvar x expression\n@@\n-bump(x)\n+bump(x + 1)\n"
+	if idx%2 == 1 {
+		// the rewrite makes the files shorter: a write that does not truncate leaves the old tail behind
+		first = "@@\nvar x expression\n@@\n-bump(x)\n+b(x)\n"
+	}
+	patch := "# bump\n" + first + "\n@@\n@@\n-badType\n+1 + 2\n"
 	type fi struct{ name, src string }
 	var files []fi
 	for f := 0; f < n; f++ {
@@ -194,7 +199,7 @@ func runC16(ctx *core.Ctx, idx int) *core.Result {
 			expectFailFile, causeWords = files[0].name, []string{"metavariable"}
 		case "rewrite-error-plus-other-change":
 			// one change fails on the target file only, another change of the same patch succeeds on it
-			patch = "@@\nvar x expression\n@@\n-bump(x)\n+bump(x + 1)\n\n@@\nvar n, y expression\n@@\n-var _ = tgtPair(n, y)\n+var n = y\n"
+			patch = first + "\n@@\nvar n, y expression\n@@\n-var _ = tgtPair(n, y)\n+var n = y\n"
 			files[tgt].src += "\nvar _ = tgtPair(call(), 1)\n\nvar _ = tgtPair(other(), 2)\n"
 			expectFailFile, causeWords = files[tgt].name, []string{"cannot", "could not"}
 		case "missing-path-first":
